@@ -857,6 +857,24 @@ class CallGraph:
                         if c and "fn" in c:
                             outs.add(c.get("fn_res") or c["fn"])
             self.out[fid] = outs
+        # higher-order local fns: a call through a generic Fn/FnOnce/FnMut parameter may invoke any
+        # closure / fn item passed to that fn at one of its call sites
+        for fid, fn in facts.fns.items():
+            ho = False
+            for b, t in fn.calls():
+                c = t.get("callee") or ""
+                if c in ("std::ops::FnOnce::call_once", "std::ops::FnMut::call_mut", "std::ops::Fn::call") and not t.get("res"):
+                    ho = True
+            if not ho:
+                continue
+            for (caller, b) in self.sites.get(fid, []):
+                cf = facts.fns.get(caller)
+                if cf is None:
+                    continue
+                for a in cf.blocks[b]["t"]["args"]:
+                    cl = closure_of_operand(cf, a)
+                    if cl:
+                        self.out[fid].add(cl)
         self._reach = {}
 
     def callees(self, fid):
